@@ -23,9 +23,10 @@ CONSTANTS
   PREC,        \* LegacyDec unit (10^18 in the code)
   UNBOND,      \* operatortypes.UnbondingExpiration (10)
   HOLDOPS,     \* operators for which the dogfood hook places a hold on a new undelegation
-  HOOKED,      \* TRUE: the entry path reaches the delegation hooks (keeper of the app / message path).
-               \* FALSE: the precompile path - app.go hands the precompiles a COPY of the delegation
-               \* keeper taken before SetHooks, so AfterUndelegationStarted is a no-op there
+  HOOKED,      \* TRUE: the entry path reaches the delegation hooks. (FALSE described the precompile path
+               \* before the fix "the precompiles receive the delegation keeper after its hooks are set":
+               \* app.go handed the precompiles a COPY of the delegation keeper taken before SetHooks, so
+               \* AfterUndelegationStarted was a no-op there. Kept as a switch so the defect stays expressible.)
   DECI,        \* [asset -> decimals]
   PRICE,       \* [asset -> latest oracle price] (0 = asset unknown to the oracle)
   PDEC         \* [asset -> price decimals]
